@@ -470,6 +470,16 @@ func checkPicks(c *harness.Case, holder any, picks []pick) caseStats {
 		if dv == jv {
 			continue
 		}
+		if multiset && (res[i].DV.Failed || res[i].JV.Failed) {
+			// results are compared as multisets because the value iterates in
+			// input order as a decode value and in sorted order as a JSON object
+			// (documented); when the query raises an error part-way, WHICH outputs
+			// come before the error depends on that order, so the two multisets
+			// are not comparable (false alarm of the thorough tier: mp4 flags
+			// struct, `.[] | ... | has(-0.5)` failing on the first number)
+			harness.ExtraAdd("pairs_skipped_error_position_depends_on_order", 1)
+			continue
+		}
 		refinedClass = ""
 		culprit, where, class, orderOnly := localise(holder, p, multiset)
 		sig := "diff:" + culprit + ":" + class
